@@ -85,3 +85,57 @@ func (f facts) mayRead() (allow bool, branch string) {
 func (f facts) administers() bool { return bit(f.ulevel, oBitBoard) || f.named }
 
 func (f facts) groupOrSymbolic() bool { return bit(f.attr, oBrdGroup) || bit(f.attr, oBrdSymbolic) }
+
+// ---- "named moderator", independently of the code: the user id equals one of the '/'-separated names ---------
+
+func cstrBytes(b []byte) []byte {
+	for i, c := range b {
+		if c == 0 {
+			return b[:i]
+		}
+	}
+	return b
+}
+
+func oAlnum(c byte) bool { return c >= '0' && c <= '9' || c >= 'A' && c <= 'Z' || c >= 'a' && c <= 'z' }
+
+// oracleNamed: byte-exact comparison with each '/'-separated name (the code does not fold case either).
+func oracleNamed(id, bm []byte) bool {
+	id, bm = cstrBytes(id), cstrBytes(bm)
+	if len(id) == 0 {
+		return false
+	}
+	start := 0
+	for i := 0; i <= len(bm); i++ {
+		if i == len(bm) || bm[i] == '/' {
+			if string(bm[start:i]) == string(id) {
+				return true
+			}
+			start = i + 1
+		}
+	}
+	return false
+}
+
+// a user id as registration admits it, and a moderator string made of ids and '/' only
+func validID(id []byte) bool {
+	id = cstrBytes(id)
+	if len(id) == 0 {
+		return false
+	}
+	for _, c := range id {
+		if !oAlnum(c) {
+			return false
+		}
+	}
+	return true
+}
+
+func wellFormedBM(bm []byte) bool {
+	for _, c := range cstrBytes(bm) {
+		if !oAlnum(c) && c != '/' {
+			return false
+		}
+	}
+	return true
+}
